@@ -60,11 +60,33 @@ def stripIface (ys : List SExp) : List SExp :=
 
 def subView (ys : List SExp) : List SExp := if headIs ys "contents" then stripContents ys else ys
 
-/-- view: status, comments, properties go; interface and contents are stripped -/
+def isCommentItem : SExp → Bool
+  | .list zs => noiseIn ["comment"] zs
+  | .atom _ => false
+
+/-- a `(contents …)` holding nothing but comments -/
+def emptyContents (ys : List SExp) : Bool := headIs ys "contents" && ys.tail.all isCommentItem
+
+def viewNoise (ys : List SExp) : Bool := noiseIn ["status", "comment", "property"] ys || emptyContents ys
+
+/-- `(cellType X)` → `(celltype GENERIC)`, `(viewType X)` → `(viewtype NETLIST)`: the reader stores the spelling of the
+    keyword under `EDIF.cellType` / `EDIF.view.viewType` (a key nothing reads) and only checks the value -/
+def canonType (kw val : String) : SExp → SExp
+  | .list [_, _] => .list [A kw, A val]
+  | x => x
+
+/-- `(rename i "o")` → `i` -/
+def plainName : SExp → SExp
+  | .list [_, i, _] => i
+  | x => x
+
+/-- view: status, comments, properties and an empty contents block go; interface and contents are stripped; a renamed view keeps
+    its identifier only (the original name of a view is stored under `EDIF.view.original_identifier` and
+    read by nothing) -/
 def stripView (ys : List SExp) : List SExp :=
   match ys with
   | kw :: nm :: vt :: .list ifc :: items =>
-    kw :: nm :: vt :: .list (stripIface ifc) :: stripItems (noiseIn ["status", "comment", "property"]) subView items
+    kw :: plainName nm :: canonType "viewtype" "NETLIST" vt :: .list (stripIface ifc) :: stripItems viewNoise subView items
   | _ => ys
 
 def subCell (ys : List SExp) : List SExp := if headIs ys "view" then stripView ys else ys
@@ -72,7 +94,8 @@ def subCell (ys : List SExp) : List SExp := if headIs ys "view" then stripView y
 /-- cell: status, comments, properties go; the view is stripped -/
 def stripCell (ys : List SExp) : List SExp :=
   match ys with
-  | kw :: nm :: ct :: items => kw :: nm :: ct :: stripItems (noiseIn ["status", "property", "comment"]) subCell items
+  | kw :: nm :: ct :: items =>
+    kw :: nm :: canonType "celltype" "GENERIC" ct :: stripItems (noiseIn ["status", "property", "comment"]) subCell items
   | _ => ys
 
 theorem headIs_stripPort (ys : List SExp) (k : String) : headIs (stripPort ys) k = headIs ys k := by
@@ -260,19 +283,20 @@ theorem ifaceItem_noise (s s' : CellSt × Bool) (ys : List SExp) (s1 : CellSt ×
 
 /-! ### view items -/
 
-def ViewRel (s s' : CellSt × Bool × Bool) : Prop := RelSt pV s.1 s'.1 ∧ s.2.2 = s'.2.2
+def ViewRel (s s' : CellSt × Bool × Bool) : Prop := RelSt pV s.1 s'.1 ∧ (s'.2.2 = true → s.2.2 = true)
 
 theorem viewItem_kept (sc sc' : Scope) (hsc : RelScope sc sc') (s s' : CellSt × Bool × Bool) (ys : List SExp)
     (s1 : CellSt × Bool × Bool) (hr : ViewRel s s')
-    (hnz : noiseIn ["status", "comment", "property"] ys = false) (hs : viewItem sc s ys = .ok s1) :
+    (hnz : viewNoise ys = false) (hs : viewItem sc s ys = .ok s1) :
     ∃ s1', viewItem sc' s' (subView ys) = .ok s1' ∧ ViewRel s1 s1' := by
+  simp only [viewNoise, Bool.or_eq_false_iff] at hnz
+  obtain ⟨hnz, _⟩ := hnz
   simp only [noiseIn, List.any_cons, List.any_nil, Bool.or_false, Bool.or_eq_false_iff] at hnz
   obtain ⟨hst, hco, hpr⟩ := hnz
   obtain ⟨st, hS, hC⟩ := s
   obtain ⟨st', hS', hC'⟩ := s'
   obtain ⟨hr, hcc⟩ := hr
   simp only at hr hcc
-  subst hcc
   unfold viewItem at hs
   simp only [hst, Bool.false_eq_true, if_false] at hs
   split at hs
@@ -280,6 +304,7 @@ theorem viewItem_kept (sc sc' : Scope) (hsc : RelScope sc sc') (s s' : CellSt ×
     split at hs
     · cases hs
     · rename_i hnC
+      have hnC' : ¬ hC' = true := fun h => hnC (hcc h)
       simp only [bind, Except.bind] at hs
       split at hs
       · cases hs
@@ -296,31 +321,159 @@ theorem viewItem_kept (sc sc' : Scope) (hsc : RelScope sc sc') (s s' : CellSt ×
           · rename_i hdup
             simp only [pure, Except.pure, Except.ok.injEq] at hs
             subst hs
-            refine ⟨(st2', hS', true), ?_, hr2, rfl⟩
+            refine ⟨(st2', hS', true), ?_, hr2, fun _ => rfl⟩
             have e : subView ys = stripContents ys := by simp [subView, hcont]
             unfold viewItem
             rw [hasDupPin_rel hr2.cables] at hdup
-            simp only [e, headIs_stripContents, hst, hcont, hnC, tail_stripContents, hl', hend, hdup, if_true, if_false,
+            simp only [e, headIs_stripContents, hst, hcont, hnC', tail_stripContents, hl', hend, hdup, if_true, if_false,
               Bool.false_eq_true, bind, Except.bind, pure, Except.pure]
   · simp only [hco, hpr, Bool.false_eq_true, if_false] at hs
     peel hs
 
+/-- a contents block of comments only leaves the cell as it was, up to the noise keys -/
+theorem loopC_comments (sc : Scope) (st' : CellSt) : ∀ (xs : List SExp) (st st2 : CellSt) (rest : List SExp),
+    xs.all isCommentItem = true → RelSt pV st st' → loopC (contentsItem sc) st xs = .ok (st2, rest) → RelSt pV st2 st' := by
+  intro xs
+  induction xs with
+  | nil =>
+    intro st st2 rest _ hr hl
+    simp only [loopC, pure, Except.pure, Except.ok.injEq, Prod.mk.injEq] at hl
+    obtain ⟨rfl, _⟩ := hl
+    exact hr
+  | cons x r ih =>
+    intro st st2 rest hall hr hl
+    simp only [List.all_cons, Bool.and_eq_true] at hall
+    cases x with
+    | atom a => simp [isCommentItem] at hall
+    | list ys =>
+      simp only [loopC, bind, Except.bind] at hl
+      split at hl
+      · cases hl
+      · rename_i s2 hs2
+        exact ih s2 st2 rest hall.2 (contentsItem_noise sc st st' ys s2 hr hall.1 hs2) hl
+
 theorem viewItem_noise (sc : Scope) (s s' : CellSt × Bool × Bool) (ys : List SExp) (s1 : CellSt × Bool × Bool)
-    (hr : ViewRel s s') (hnz : noiseIn ["status", "comment", "property"] ys = true) (hs : viewItem sc s ys = .ok s1) :
+    (hr : ViewRel s s') (hnz : viewNoise ys = true) (hs : viewItem sc s ys = .ok s1) :
     ViewRel s1 s' := by
   obtain ⟨st, hS, hC⟩ := s
   obtain ⟨hr, hcc⟩ := hr
   simp only at hr hcc
-  have hc := not_kept_of_noise _ ys "contents" hnz (by decide)
-  unfold viewItem at hs
-  simp only [hc, Bool.false_eq_true, if_false] at hs
-  peel hs
-  all_goals (rename_i m1 hm1; simp only [Except.ok.injEq] at hs; subst hs)
-  · exact ⟨hr.withM (parseStatus_sameK KO st.m m1 ys (by rw [hr.pfx]; exact ns_status_V) hm1), hcc⟩
-  · exact ⟨hr.withM (parseComment_sameK KO st.m m1 ys (by rw [hr.pfx]; exact ns_comments_V.plain) hm1), hcc⟩
-  · exact ⟨hr.withM (parseProperty_sameK KO st.m m1 ys (by rw [hr.pfx]; exact ns_properties_V) hm1), hcc⟩
+  cases hn : noiseIn ["status", "comment", "property"] ys with
+  | true =>
+    have hc := not_kept_of_noise _ ys "contents" hn (by decide)
+    unfold viewItem at hs
+    simp only [hc, Bool.false_eq_true, if_false] at hs
+    peel hs
+    all_goals (rename_i m1 hm1; simp only [Except.ok.injEq] at hs; subst hs)
+    · exact ⟨hr.withM (parseStatus_sameK KO st.m m1 ys (by rw [hr.pfx]; exact ns_status_V) hm1), hcc⟩
+    · exact ⟨hr.withM (parseComment_sameK KO st.m m1 ys (by rw [hr.pfx]; exact ns_comments_V.plain) hm1), hcc⟩
+    · exact ⟨hr.withM (parseProperty_sameK KO st.m m1 ys (by rw [hr.pfx]; exact ns_properties_V) hm1), hcc⟩
+  | false =>
+    simp only [viewNoise, hn, Bool.false_or, emptyContents, Bool.and_eq_true] at hnz
+    obtain ⟨hcont, hall⟩ := hnz
+    have hst : headIs ys "status" = false := by
+      cases h : headIs ys "status" with
+      | false => rfl
+      | true => exact absurd (headIs_two ys _ _ h hcont) (by decide)
+    unfold viewItem at hs
+    simp only [hst, hcont, Bool.false_eq_true, if_false, if_true] at hs
+    split at hs
+    · cases hs
+    · simp only [bind, Except.bind] at hs
+      split at hs
+      · cases hs
+      · rename_i v hv
+        obtain ⟨st2, rest⟩ := v
+        have hr2 := loopC_comments sc s'.1 ys.tail st st2 rest hall hr hv
+        simp only at hs
+        split at hs
+        · cases hs
+        · split at hs
+          · cases hs
+          · simp only [pure, Except.pure, Except.ok.injEq] at hs
+            subst hs
+            exact ⟨hr2, fun _ => rfl⟩
 
 /-! ### view -/
+
+/-- a value stored under a key outside `K`: whatever value, the two runs stay related -/
+theorem setAttr_noise2 (m m' m1 : Meta) (v v' : Val) (hp : PlainK KO m.pfx) (h : MRel KO m m')
+    (hs : setAttr m v = .ok m1) : ∃ m1', setAttr m' v' = .ok m1' ∧ MRel KO m1 m1' := by
+  have hp' : PlainK KO m'.pfx := h.1 ▸ hp
+  have h1 := setAttr_sameK KO m m1 v hp hs
+  obtain ⟨p1, p2, p3⟩ := hp'
+  refine ⟨{ m' with data := m'.data.set m'.key v' }, ?_, ?_, ?_⟩
+  · unfold setAttr
+    simp only [Meta.key]
+    rw [if_neg (by exact p2), if_neg p1]
+    rfl
+  · exact h1.1.trans h.1
+  · intro k hk
+    show (m'.data.set (joinDot m'.pfx) v').get? k = m1.data.get? k
+    rw [Data.get?_set_other _ _ _ _ (Ne.symm (p3 k hk)), h.2 k hk, h1.2 k hk]
+
+theorem ns_cellType : NoSpecialK KO [S "EDIF", S "cellType"] := noSpecialK_lit6 KO 'c' "ellType".toList (by decide)
+theorem ns_viewType : NoSpecialK KO [S "EDIF", S "view", S "viewType"] := noSpecialK_view KO 'v' "iewType".toList (by decide)
+
+theorem ns_orig_V : NoSpecialK KO [S "EDIF", S "view", S "original_identifier"] :=
+  noSpecialK_view KO 'o' "riginal_identifier".toList (by decide)
+
+/-- the name of a view: `(rename i "o")` or `i`, the same up to the noise keys -/
+theorem nameDef_plain (m m' m1 : Meta) (hp : m.pfx = pV) (h : MRel KO m m') (nm : SExp) (rest r : List SExp)
+    (hs : nameDef m (nm :: rest) = .ok (m1, r)) :
+    ∃ m1', nameDef m' (plainName nm :: rest) = .ok (m1', r) ∧ MRel KO m1 m1' := by
+  cases nm with
+  | atom a => exact nameDef_rel KO kN_O m m' m1 _ r h hs
+  | list ys =>
+    simp only [nameDef, bind, Except.bind] at hs
+    split at hs
+    · cases hs
+    · rename_i mb hmb
+      simp only [pure, Except.pure, Except.ok.injEq, Prod.mk.injEq] at hs
+      obtain ⟨rfl, rfl⟩ := hs
+      unfold parseRename at hmb
+      split at hmb
+      · rename_i kw i o
+        split at hmb
+        · simp only [bind, Except.bind] at hmb
+          split at hmb
+          · cases hmb
+          · rename_i ident hident
+            split at hmb
+            · cases hmb
+            · rename_i ma hma
+              split at hmb
+              · cases hmb
+              · rename_i orig horig
+                split at hmb
+                · cases hmb
+                · rename_i mc hmc
+                  simp only [pure, Except.pure, Except.ok.injEq] at hmb
+                  subst hmb
+                  obtain ⟨ma', hma', hra⟩ := setAttr_rel KO kN_O _ _ ma _ (h.push "identifier") hma
+                  have hpa : ma.pop.pfx = pV := by
+                    have := setAttr_pfx _ _ _ hma
+                    simp only [Meta.pop, Meta.push] at this ⊢
+                    rw [this, List.dropLast_concat, hp]
+                  have hnoise := setAttr_sameK KO (ma.pop.push "original_identifier") mc _
+                    (by simp only [Meta.push, hpa]; exact ns_orig_V.plain) hmc
+                  cases i with
+                  | list zs => simp [identOfS] at hident
+                  | atom a =>
+                    refine ⟨ma'.pop, ?_, ?_⟩
+                    · simp only [plainName, nameDef, hident, hma', bind, Except.bind, pure, Except.pure]
+                    · refine ⟨?_, ?_⟩
+                      · have := hra.pop.1
+                        simp only [Meta.pop, Meta.push] at hnoise this ⊢
+                        rw [hnoise.1, List.dropLast_concat]
+                        exact this
+                      · intro k hk
+                        have h1 := hra.2 k hk
+                        have h2 := hnoise.2 k hk
+                        simp only [Meta.pop, Meta.push] at h1 h2 ⊢
+                        rw [h1, h2]
+        · cases hmb
+      · cases hmb
 
 /-- **view**: read with its status, comments and properties (at any depth below it) or without -/
 theorem parseView_strip (sc sc' : Scope) (hsc : RelScope sc sc') (st st' : CellSt) (hr : RelSt pE st st') (ys : List SExp)
@@ -338,10 +491,11 @@ theorem parseView_strip (sc sc' : Scope) (hsc : RelScope sc sc') (st st' : CellS
     · simp only [List.tail_cons] at hv
       obtain ⟨hrest, hall⟩ := nameDef_rest _ _ _ _ _ hv
       subst hrest
-      obtain ⟨m', hv', hrm⟩ := nameDef_rel KO kN_O _ _ m _ _ (hr.m.push "view") hv
+      have hpush : (st.m.push "view").pfx = pV := by simp [Meta.push, hr.pfx, pV, pE]
+      obtain ⟨m', hv', hrm⟩ := nameDef_plain _ _ m hpush (hr.m.push "view") nm _ _ hv
       obtain ⟨_, hall'⟩ := nameDef_rest _ _ _ _ _ hv'
       have hpfx : m.pfx = pV := by
-        rw [nameDef_pfx _ _ _ _ hv]; simp [Meta.push, hr.pfx, pV, pE]
+        rw [nameDef_pfx _ _ _ _ hv]; exact hpush
       simp only at hs
       split at hs
       · rename_i vt ifc rest2 _
@@ -356,7 +510,10 @@ theorem parseView_strip (sc sc' : Scope) (hsc : RelScope sc sc') (st st' : CellS
               split at hs
               · cases hs
               · rename_i m2 hm2
-                obtain ⟨m2', hm2', hrm2⟩ := setAttr_rel KO kN_O _ _ m2 _ (hrm.push "viewType") hm2
+                obtain ⟨m2', hm2', hrm2⟩ := setAttr_noise2 _ _ m2 _ (.str (atomText (A "viewtype")))
+                  (by simp only [Meta.push, hpfx]; exact ns_viewType.plain) (hrm.push "viewType") hm2
+                have hk' : (!isKw (A "viewtype") "viewtype") = false := by decide
+                have ht' : (!(viewTypes.any (isKw (A "NETLIST")))) = false := by decide
                 have hpfx2 : m2.pop.pfx = pV := by
                   have := setAttr_pfx _ _ _ hm2
                   simp only [Meta.pop, Meta.push] at this ⊢
@@ -380,9 +537,9 @@ theorem parseView_strip (sc sc' : Scope) (hsc : RelScope sc sc') (st st' : CellS
                       · rename_i v4 hv4
                         obtain ⟨⟨st4, a4, b4⟩, rest4⟩ := v4
                         obtain ⟨⟨st4', a4', b4'⟩, hl4, hr4⟩ := loopC_strip2 (viewItem sc) (viewItem sc')
-                          (noiseIn ["status", "comment", "property"]) subView ViewRel
+                          viewNoise subView ViewRel
                           (viewItem_kept sc sc' hsc) (viewItem_noise sc) rest2 (st3, false, false) (st3', false, false)
-                          (st4, a4, b4) rest4 ⟨hr3.1, rfl⟩ hv4
+                          (st4, a4, b4) rest4 ⟨hr3.1, fun h => h⟩ hv4
                         simp only at hs
                         split at hs
                         · cases hs
@@ -391,7 +548,7 @@ theorem parseView_strip (sc sc' : Scope) (hsc : RelScope sc sc') (st st' : CellS
                           subst hs
                           refine ⟨{ st4' with m := st4'.m.pop }, ?_, ?_, hr4.1.m.pop, hr4.1.ports, hr4.1.insts, hr4.1.cables⟩
                           · unfold parseView
-                            simp only [stripView, List.tail_cons, bind, Except.bind, hall', hk, ht, hm2', hifc,
+                            simp only [stripView, canonType, List.tail_cons, bind, Except.bind, hall', hk', ht', hm2', hifc,
                               headIs_stripIface, tail_stripIface, hl3, hend1, hl4, hend2, if_false, Bool.false_eq_true,
                               pure, Except.pure]
                           · simp only [Meta.pop]
@@ -460,6 +617,10 @@ theorem parseCell_strip (sc sc' : Scope) (hsc : RelScope sc sc') (ys : List SExp
             split at hs
             · cases hs
             · rename_i m2 hm2
+              obtain ⟨m2', hm2', hrm2⟩ := setAttr_noise2 _ _ m2 _ (.str (atomText (A "celltype")))
+                (by simp only [Meta.push, hpfx]; exact ns_cellType.plain) ((MRel.refl KO m).push "cellType") hm2
+              have hk' : (!isKw (A "celltype") "celltype") = false := by decide
+              have ht' : (!(["generic", "tie", "ripper"].any (isKw (A "GENERIC")))) = false := by decide
               have hpfx2 : m2.pop.pfx = pE := by
                 have := setAttr_pfx _ _ _ hm2
                 simp only [Meta.pop, Meta.push] at this ⊢
@@ -470,8 +631,8 @@ theorem parseCell_strip (sc sc' : Scope) (hsc : RelScope sc sc') (ys : List SExp
                 obtain ⟨st3, rest3⟩ := v3
                 obtain ⟨st3', hl3, hr3⟩ := loopC_strip2 (cellItem sc) (cellItem sc')
                   (noiseIn ["status", "property", "comment"]) subCell (RelSt pE)
-                  (cellItem_kept sc sc' hsc) (cellItem_noise sc) rest2 { m := m2.pop } { m := m2.pop } st3 rest3
-                  ⟨hpfx2, MRel.refl KO _, All2.nil, All2.nil, All2.nil⟩ hv3
+                  (cellItem_kept sc sc' hsc) (cellItem_noise sc) rest2 { m := m2.pop } { m := m2'.pop } st3 rest3
+                  ⟨hpfx2, hrm2.pop, All2.nil, All2.nil, All2.nil⟩ hv3
                 simp only at hs
                 split at hs
                 · cases hs
@@ -481,7 +642,7 @@ theorem parseCell_strip (sc sc' : Scope) (hsc : RelScope sc sc') (ys : List SExp
                   refine ⟨{ data := st3'.m.data, ports := st3'.ports, cables := st3'.cables, insts := st3'.insts }, ?_,
                     hr3.m.2, hr3.ports, hr3.insts, hr3.cables⟩
                   unfold parseCell
-                  simp only [stripCell, List.tail_cons, bind, Except.bind, hall, hk, ht, hm2, hl3, hend, if_false,
+                  simp only [stripCell, canonType, List.tail_cons, bind, Except.bind, hall, hk', ht', hm2', hl3, hend, if_false,
                     Bool.false_eq_true, pure, Except.pure]
       · cases hs
 
